@@ -84,10 +84,12 @@ func runUDPHistory(r *vrng, h uhist) (sig, desc, summary string) {
 				return nil
 			case "closeLinger":
 				if n == 1 {
-					cx.Close()
+					// the time is taken before Close: a newer association can only be started once Close has marked this one done, so
+					// this is a lower bound whatever the scheduler does between the two statements
 					mu.Lock()
 					a.closedAt = time.Now()
 					mu.Unlock()
+					cx.Close()
 					time.Sleep(40 * time.Millisecond) // still shutting down while new datagrams arrive
 					return nil
 				}
@@ -96,6 +98,9 @@ func runUDPHistory(r *vrng, h uhist) (sig, desc, summary string) {
 					// leave a datagram half read, close explicitly and end the association (Close runs again when the
 					// handler returns, as it does after any handler that closes its connection)
 					cx.Read(small)
+					mu.Lock()
+					a.closedAt = time.Now() // before Close, as above
+					mu.Unlock()
 					cx.Close()
 					return nil
 				}
